@@ -296,7 +296,10 @@ class TlSchemas:
                         i += 4
                         result[field] = []
                         for _ in range(length):
-                            if sch:
+                            if subtype in self.base_types:
+                                deser, j = self.deserialize(data[i:], False, {'_': subtype})
+                                deser = deser.get('_')
+                            elif sch:
                                 deser, j = self.deserialize(data[i:], False, sch.args)
                             else:
                                 deser, j = self.deserialize(data[i:], True)
